@@ -4,7 +4,7 @@
    number of submitted-but-uncollected tasks the harness counted at the return of the run).
 
    Black box: every observation must equal the canonical-schedule prediction of
-   Model/Confluence.v (batch: identity completion order; eager: oldest running task first;
+   Model/Confluence.v (batch: identity completion order; eager: see [eager_obs_ok];
    in eager mode only the executions that feed END are compared, and nothing is compared on
    a failed eager run but the error class).
    White box: every trace must be accepted by the LTS of Model/TaskMgr.v, the LTS must end with
@@ -35,34 +35,59 @@ Definition log_eqb (a b : exec_log) : bool :=
 
 Definition fuel_of (g : graph) : nat := 2 * List.length g + 12.
 
+(* batch modes: the identity completion order *)
 Definition predict (c : ccase) : outcome * exec_log :=
   match c_mode c with
   | 0%N => batch (fun l => l) Pregel (c_graph c) (fuel_of (c_graph c))
-  | 1%N => batch (fun l => l) Dag (c_graph c) (fuel_of (c_graph c))
-  | _ => fst (eager (fun _ => O) (c_graph c) (fuel_of (c_graph c)))
+  | _ => batch (fun l => l) Dag (c_graph c) (fuel_of (c_graph c))
   end.
 
-Definition feeding (g : graph) (l : exec_log) : exec_log :=
-  let a := ancestors g in filter (fun x => nmem (fst x) a) l.
+(* a node that fails and does not feed END: the only graphs on which the outcome of an eager run
+   depends on the schedule (Props/C03.v: eager_confluent, eager_outcome_schedule_dependent_refuted;
+   known finding F-C03c) *)
+Definition has_fail_nonanc (g : graph) : bool :=
+  let a := ancestors g in
+  existsb (fun n => negb (N.eqb (n_fail n) 0) && negb (nmem (n_id n) a)) g.
+
+Definition is_batch (c : ccase) : bool := N.eqb (c_mode c) 0 || N.eqb (c_mode c) 1.
+
+(* eager mode.  A value must be the value of the schedule that avoids failing tasks (every
+   schedule that delivers a value delivers that one), with the same executions feeding END; an
+   error must be what the oldest-first schedule predicts, unless the graph has a failing node
+   that does not feed END (then value and error are both possible, F-C03c).  Which executions had
+   started when a failure was collected is timing: not compared. *)
+Definition eager_obs_ok (g : graph) (o : robs * exec_log) : bool :=
+  match fst o with
+  | RVal v =>
+      match eager pick_ok g (fuel_of g) with
+      | (ODone v', log, _) => val_eqb v v' && log_eqb (feeding g (snd o)) (feeding g log)
+      | _ => false
+      end
+  | RErr =>
+      match eager pick_first g (fuel_of g) with
+      | (OFail, _, _) => true
+      | (ODone _, _, _) => has_fail_nonanc g
+      | _ => false
+      end
+  | _ => false
+  end.
 
 Definition obs_ok (c : ccase) (o : robs * exec_log) : bool :=
-  let '(out, log) := predict c in
-  let eager_mode := negb (N.eqb (c_mode c) 0 || N.eqb (c_mode c) 1) in
-  match fst o, out with
-  | RVal v, ODone v' =>
-      val_eqb v v' &&
-      (if eager_mode then log_eqb (feeding (c_graph c) (snd o)) (feeding (c_graph c) log)
-       else log_eqb (snd o) log)
-  | RErr, OFail => if eager_mode then true else log_eqb (snd o) log
-  | _, _ => false
-  end.
+  if is_batch c then
+    let '(out, log) := predict c in
+    match fst o, out with
+    | RVal v, ODone v' => val_eqb v v' && log_eqb (snd o) log
+    | RErr, OFail => log_eqb (snd o) log
+    | _, _ => false
+    end
+  else eager_obs_ok (c_graph c) o.
 
 Definition trace_ok (c : ccase) (t : list ev * nat) : bool :=
   accepts (fst t) &&
   match trace_leftover (fst t) with
   | Some (lft, n) =>
       Nat.eqb lft (snd t) && Nat.eqb n (snd t) &&
-      (if N.eqb (c_mode c) 0 || N.eqb (c_mode c) 1 then Nat.eqb lft 0 else true)
+      (if is_batch c then Nat.eqb lft 0 else true)
   | None => false
   end.
 
